@@ -1,7 +1,9 @@
 package props
 
 import (
+	"connectrpc.com/vanguard/verifharness/wire"
 	"fmt"
+	"net/http"
 
 	"connectrpc.com/vanguard/verifharness/drive"
 	"connectrpc.com/vanguard/verifharness/world"
@@ -102,12 +104,21 @@ func init() {
 		c.Attr("path", p.Path)
 		c.Attr("side", "response")
 		var bodyLen int
-		base := p.run(runOpts{Reply: func(r *world.Reply) { bodyLen = len(r.Out.Body) }})
+		// the reply whose write schedule is varied: the pairing's success, or an error the
+		// backend reports in its protocol (error body / end frame / trailers)
+		var responder func(b *world.Backend, r *http.Request) *world.Reply
+		if c.Free("reply", 2) == 1 {
+			c.Attr("~reply", "error")
+			responder = func(b *world.Backend, r *http.Request) *world.Reply {
+				return world.EchoReply(b.Parsed, nil, "", &wire.End{Code: 5, Message: "no such thing"})
+			}
+		}
+		base := p.run(runOpts{Responder: responder, Reply: func(r *world.Reply) { bodyLen = len(r.Out.Body) }})
 		if base.Err != nil {
 			c.Fail("harness.setup", "pairing %s: %v", p.Name, base.Err)
 			return
 		}
-		if base.Backend.Calls != 1 || base.Ex.Rec.Status != 200 {
+		if base.Backend.Calls != 1 || (base.Ex.Rec.Status != 200 && responder == nil) {
 			c.Fail("harness.base-not-ok", "pairing %s default run: backend calls=%d client=%s", p.Name, base.Backend.Calls, short(clientView(base.Ex)))
 			return
 		}
@@ -130,15 +141,17 @@ func init() {
 		}
 		flushEach := c.Choose("flush-each", 2) == 1
 		emptyWrites := c.Choose("empty-writes", 2) == 1
-		if len(cuts) == 0 && !flushEach && !emptyWrites {
+		flushHead := c.Choose("flush-after-header", 2) == 1
+		if len(cuts) == 0 && !flushEach && !emptyWrites && !flushHead {
 			c.Outcome("default")
 			return
 		}
 		c.Attr("~cuts", fmt.Sprint(cuts))
-		v := p.run(runOpts{Reply: func(r *world.Reply) {
+		v := p.run(runOpts{Responder: responder, Reply: func(r *world.Reply) {
 			r.Cuts = cuts
 			r.FlushEach = flushEach
 			r.EmptyWrites = emptyWrites
+			r.FlushAfterHeader = flushHead
 		}})
 		if v.Err != nil {
 			c.Fail("harness.setup", "%v", v.Err)
@@ -154,7 +167,7 @@ func init() {
 			c.Fail("C08.handler-write-errors-differ", "pairing %s cuts=%v: default write errors %v, variant %v", p.Name, cuts, base.Backend.WriteErrs, v.Backend.WriteErrs)
 		}
 		if bc, vc := clientView(base.Ex), clientView(v.Ex); bc != vc && semClient(p.Client, base.Ex, p.out()) != semClient(p.Client, v.Ex, p.out()) {
-			c.Fail("C08.client-response-differs", "pairing %s write cuts=%v flushEach=%v emptyWrites=%v\n default: %s\n variant: %s", p.Name, cuts, flushEach, emptyWrites, short(bc), short(vc))
+			c.Fail("C08.client-response-differs", "pairing %s write cuts=%v flushEach=%v emptyWrites=%v flushAfterHeader=%v\n default: %s\n variant: %s", p.Name, cuts, flushEach, emptyWrites, flushHead, short(bc), short(vc))
 		}
 		c.Outcome("resp:" + p.Path)
 	}
@@ -163,7 +176,7 @@ func init() {
 		Level: "exploration",
 		Rule: "For each of the adapter-path pairings (DESIGN Appendix A) every request-body segmentation with up to D cut offsets (every offset), " +
 			"EOF-with-data, every handler read-buffer size in {1..8,16,4096} with one size change at read index 1..5, and every response Write segmentation " +
-			"(up to D cuts at every offset, uniform 1..4-byte chunks, flush-after-each, interleaved empty writes) is compared with the unsegmented run. " +
+			"(up to D cuts at every offset, uniform 1..4-byte chunks, flush-after-each, flush right after the header, interleaved empty writes; for the success reply and for an error reply) is compared with the unsegmented run. " +
 			"Non-trivial = distinct (pairing, segmentation) with at least one cut or a read buffer < 5 bytes.",
 		Assume: []string{"protojson/gzip output is deterministic within one process", "strict ResponseWriter model (drive.Recorder) mirrors net/http"},
 		Scenarios: []Scenario{
